@@ -69,8 +69,8 @@ Theorem C17_nested_value_reads_back : forall q v closer ty rest,
 Proof. exact read_value_render. Qed.
 Print Assumptions C17_nested_value_reads_back.
 
-(** The rfc4180 writer as it was before the repair (a backslash in front of the doubled quote
-    of a symbol field) did not round-trip: [a"b] came back as [a\"b]. *)
+(** The rfc4180 writer as it was before the first repair (a backslash in front of the doubled
+    quote of a symbol field) did not round-trip: [a"b] came back as [a\"b]. *)
 Theorem C17_rfc4180_backslash_writer_refuted :
   exists s, representable_row rfc_cfg [TySym] [CSym s] = true /\
             read_tuple rfc_cfg [TySym] (write_tuple_old rfc_cfg [TySym] [CSym s]) = Some [CSym [97; 92; 34; 98]] /\
@@ -78,14 +78,16 @@ Theorem C17_rfc4180_backslash_writer_refuted :
 Proof. exact rfc4180_backslash_writer_refuted. Qed.
 Print Assumptions C17_rfc4180_backslash_writer_refuted.
 
-(** Present code, rfc4180, symbol nested in a record: a backslash in the symbol is lost
-    ([a\b] comes back as [ab]) -- such symbols are outside [representable]. *)
-Theorem C17_rfc4180_nested_backslash_refuted :
-  exists s, read_tuple rfc_cfg [ty_P] (write_tuple rfc_cfg [ty_P] [CRec [CNum 2; CSym s]])
-            = Some [CRec [CNum 2; CSym [97; 98]]] /\ s <> [97; 98] /\
-            nested_sym_ok true 93 s = false.
-Proof. exact rfc4180_nested_backslash_refuted. Qed.
-Print Assumptions C17_rfc4180_nested_backslash_refuted.
+(** The rfc4180 writer as it was before the second repair (quotes of a symbol nested in a
+    record / ADT escaped by a backslash, backslashes left alone): a nested symbol with a
+    backslash did not round-trip, [a\b] came back as [ab]. With the present writer such symbols
+    are representable (first conjunct) and covered by [C17_roundtrip]. *)
+Theorem C17_rfc4180_nested_backslash_before_fix_refuted :
+  exists s, representable_row rfc_cfg [ty_P] [CRec [CNum 2; CSym s]] = true /\
+            read_tuple rfc_cfg [ty_P] (write_tuple_nested_old rfc_cfg [ty_P] [CRec [CNum 2; CSym s]])
+            = Some [CRec [CNum 2; CSym [97; 98]]] /\ s <> [97; 98].
+Proof. exact rfc4180_nested_backslash_before_fix_refuted. Qed.
+Print Assumptions C17_rfc4180_nested_backslash_before_fix_refuted.
 
 (** Default format: a symbol with a tab does not round-trip. *)
 Theorem C17_default_tab_symbol_refuted :
@@ -120,8 +122,7 @@ Proof. exact default_record_symbol_refuted. Qed.
 Print Assumptions C17_default_record_symbol_refuted.
 
 (** Delimiter ",": an ADT with two arguments, a symbol with an unmatched ']' and a symbol with
-    an unmatched '[' do not read back (for the last one the C++ loop indexes past the end of
-    the line; the model reports an error). *)
+    an unmatched '[' do not read back (all three are load errors). *)
 Theorem C17_comma_delimiter_refuted :
   let c := {| rfc4180 := false; delim := [44] |} in
   read_tuple c [ty_A] (write_tuple c [ty_A] [CAdt [89] [CSym [97; 98; 99]; CRec [CNum 1; CSym [120]]]]) = None /\
